@@ -86,7 +86,8 @@ Progs2 == UNION {{ab \o <<it, ro>>: it \in Plain(ab), ro \in RepOnlys(ab)}: ab \
 \* the alias definitions AFTER their use, and a repeat-only entry BEFORE the mapping it adjusts
 Progs3 == IF Size >= 2
           THEN UNION {{<<ro, it>> \o ab: it \in Plain(ab), ro \in {x \in RepOnlys(ab): x.key = "A" /\ x.rep = Disabled}}: ab \in AliasBlocks}
-          ELSE {}
+          \* (quick) the repeat-only entry first, the aliases in their usual place: clause order must not matter
+          ELSE UNION {UNION {{ab \o <<ro, it>>: ro \in {x \in RepOnlys(ab): x.key = "A" /\ x.mods = it.mods}}: it \in {p \in Plain(ab): p.ty = "single"}}: ab \in AliasBlocks}
 \* two mappings with the SAME trigger set (a row mapping and a single mapping overriding one of its keys, in either
 \* order) and a repeat-only entry for that trigger: the repeat mode must reach every mapping of the trigger set
 RowAS(ml) == [ty |-> "row", mods |-> ml, row |-> "A", tomods |-> <<>>, letters |-> <<"a", "o">>, rep |-> Normal, abs |-> <<>>]
